@@ -144,8 +144,9 @@ class Runner:
     """Wraps chk.correspond for the optim family: tolerant comparison with the
     model engine and an independent verdict from the specification engine."""
 
-    def __init__(self, chk, judge_line=None):
+    def __init__(self, chk, judge_line=None, use_spec=True):
         self.chk = chk
+        self.use_spec = use_spec
         self.verdicts = {}
         self.spec_out = {}
         self.sid = 0
@@ -163,7 +164,7 @@ class Runner:
     def post(self, lines, impl, model):
         self.sid += 1
         sid = self.sid
-        spec = self.spec_run(lines)
+        spec = self.spec_run(lines) if self.use_spec else list(impl)
         self.streams_out.append((lines, list(impl)))
         impl2, model2 = [], []
         failed = False     # a verdict was given in the current history: what follows is a consequence
@@ -228,14 +229,15 @@ class Runner:
 _EXE = None
 
 
-def fails_on_impl(lines, want=None):
-    """Re-run lines on implementation and specification; the first violating
-    line index and verdict or None (used for shrinking)."""
+def fails_on_impl(lines, use_spec=True, judge_line=None):
+    """Re-run lines on the implementation (and the specification engine); the
+    first violating line: (index, implementation output, expected) or None
+    (used for shrinking)."""
     global _EXE
     if _EXE is None:
         _EXE = build.build_harness("h_optim")
     impl, reports = vrun.run_impl(_EXE, lines, stateful=True)
-    spec = vrun.run_model("optim", ["engine spec"] + lines)[1:]
+    spec = vrun.run_model("optim", ["engine spec"] + lines)[1:] if use_spec else list(impl)
     c = StreamCmp(TOL_SPEC)
     for i, line in enumerate(lines):
         if line.startswith("mode "):
@@ -244,4 +246,25 @@ def fails_on_impl(lines, want=None):
             break
         if impl[i].startswith("crash") or not c.line(impl[i], spec[i]):
             return i, impl[i], spec[i]
+        if judge_line:
+            w = judge_line(line, impl[i])
+            if w:
+                return i, impl[i], w
     return None
+
+
+def obligations_with_gen(chk, mods, generate, out_path):
+    """Regenerate Gen/… and build; checks of other working trees running at the
+    same time may rewrite the generated file between the two steps, so verify
+    that what was built is what was generated and retry otherwise."""
+    res = None
+    for attempt in range(4):
+        txt = generate()
+        chk.oblig = None
+        res = chk.obligations(mods, drivers=["optim"])
+        try:
+            if open(out_path).read() == txt:
+                break
+        except OSError:
+            pass
+    return res
